@@ -64,7 +64,11 @@ Fixpoint subst_f (n : nat) (m : tvmap) (v : val) {struct v} : val :=
   | VNode t kids =>
       match t with
       | TTypeVar tv _ => match lookup tv m with Some r => r | None => v end
-      | TGeneric _ | TAnnot _ | TCallable _ => VNode t (map (subst_f n m) kids)
+      | TGeneric _ | TAnnot _ => VNode t (map (subst_f n m) kids)
+      | TCallable _ =>
+          (* Signature.substitute_typevars returns self when nothing changed up to == *)
+          let kids' := map (subst_f n m) kids in
+          if forall2b (veq_f n) kids' kids then v else VNode t kids'
       | TSeq _ _ =>
           match kids with
           | _ :: ms => let ms' := map (subst_f n m) ms in VNode t (seq_arg n ms' :: ms')
